@@ -777,6 +777,15 @@ def _faults():
     f("unknown-model-tck", "POST", tck, JSON_CT, tck_body(simple_dto("xsd:string", "x"), model="nomodel"))
     f("unknown-invocable-evaluate", "POST", "/evaluate/a/Nope", JSON_CT, b"{}", "errors-or-null")
     f("unknown-invocable-tck", "POST", tck, JSON_CT, tck_body(simple_dto("xsd:string", "x"), invocable="Nope"), "errors-or-null")
+    # long and non-ASCII names of things that do not exist (they are quoted in messages that are cut to a maximum length): 2-, 3- and
+    # 4-byte characters at every alignment
+    for j, (ch, cnt) in enumerate((("\u017c", 600), ("\u20ac", 400), ("\U0001f600", 300), ("z", 1200))):
+        for pad in range(4):
+            nm = "a" * pad + ch * cnt
+            f("unknown-long-invocable-evaluate-%d-%d" % (j, pad), "POST", "/evaluate/a/" + seg(nm), JSON_CT, b"{}", "errors-or-null")
+            if pad == 0:
+                f("unknown-long-invocable-tck-%d" % j, "POST", tck, JSON_CT, tck_body(simple_dto("xsd:string", "x"), invocable=nm), "errors-or-null")
+                f("unknown-long-model-evaluate-%d" % j, "POST", "/evaluate/" + seg(nm) + "/Who", JSON_CT, b"{}")
     f("unknown-path-get", "GET", "/nope", {}, None)
     f("unknown-path-post", "POST", "/definitions/nope", JSON_CT, b"{}")
     f("get-on-post-endpoint", "GET", add, {}, None)
